@@ -616,3 +616,28 @@ pub fn calib(seed: u64, n: usize) {
         }
     }
 }
+
+/// `units roundtrip <arch> <Kind> <value> [word]`: write_to_value, read_value, write_to_value again
+/// (by-hand reproducer for the encoder findings).
+pub fn roundtrip(arch: &str, kind: &str, value: u64, word: u64) {
+    let Some(k) = KINDS.iter().find(|k| k.arch == arch && k.name == kind) else {
+        println!("unknown kind {arch}/{kind}");
+        return;
+    };
+    let Some(insn) = wild_insn(k) else {
+        println!("{arch}/{kind} has no wild encoder");
+        return;
+    };
+    let fm = k.field_mask();
+    let mut b = to_buf(word, 0);
+    insn.write_to_value(value, false, &mut b);
+    let w1 = u64::from_le_bytes(b[..8].try_into().unwrap());
+    let (rv, neg) = insn.read_value(&b);
+    let mut b2 = to_buf(word & !fm, 0);
+    insn.write_to_value(rv & low_mask(k.in_bits), neg, &mut b2);
+    let w2 = u64::from_le_bytes(b2[..8].try_into().unwrap());
+    let want = (word & !fm) | k.place(k.field_value(value, false));
+    println!(
+        "{arch}/{kind} field_mask=0x{fm:x} word_before=0x{word:x} value=0x{value:x}: write -> 0x{w1:x} (independent table: 0x{want:x}); read_value -> (0x{rv:x}, negative={neg}); written back into a cleared field -> 0x{w2:x}"
+    );
+}
